@@ -593,7 +593,8 @@ class Subset(Family):
                     for nodes in itertools.permutations(range(n_small), k):
                         for rp in (True, False):
                             for ru in (True, False):
-                                yield {"desc": d, "nodes": list(nodes), "rp": rp, "ru": ru}
+                                yield {"desc": d, "nodes": list(nodes), "rp": rp, "ru": ru,
+                                       "form": rng.choice(FORMS)}
         for _ in range(500 if not big else 6000):
             d = gen_desc(rng, max_nodes=rng.choice([4, 6, 8, 8, 12]))
             n = len(d["nodes"])
@@ -612,30 +613,35 @@ class Subset(Family):
                 nodes = [u for u in range(n) if d["nodes"][u][1] >= cut]
             else:
                 nodes = rng.sample(range(n), rng.randrange(0, n + 1)) if n else []
-            yield {"desc": d, "nodes": nodes, "rp": rng.random() < 0.6, "ru": rng.random() < 0.6}
+            yield {"desc": d, "nodes": nodes, "rp": rng.random() < 0.6, "ru": rng.random() < 0.6,
+                   "form": rng.choice(FORMS)}
 
     def observe(self, case):
         d = case["desc"]
         scale = d.get("scale", 1)
         tc = gen_ts.build_tables(d, sort=True, index=False)
         obs = {"input": dump(tc, scale)}
+        form = case.get("form", "list")
+        arg = lambda: as_form(case["nodes"], form, int(tc.nodes.num_rows))
         t = tc.copy()
         try:
-            t._ll_tables.subset(_i32(case["nodes"]), reorder_populations=case["rp"],
-                                remove_unreferenced=case["ru"])
+            # the C binding itself: every form it accepts (lists and any integer array layout)
+            # (an int64 array is not a safe cast to int32 for the binding: the public wrappers convert)
+            t._ll_tables.subset(arg() if form != "int64" else _i32(case["nodes"]),
+                                reorder_populations=case["rp"], remove_unreferenced=case["ru"])
             obs["ll"] = dump(t, scale)
         except Exception as e:
             obs["ll"] = exc(e)
         t = tc.copy()
         try:
-            t.subset(case["nodes"], record_provenance=False, reorder_populations=case["rp"],
+            t.subset(arg(), record_provenance=False, reorder_populations=case["rp"],
                      remove_unreferenced=case["ru"])
             obs["tc"] = dump(t, scale)
         except Exception as e:
             obs["tc"] = exc(e)
         try:
             ts = tc.tree_sequence()
-            ts2 = ts.subset(case["nodes"], reorder_populations=case["rp"], remove_unreferenced=case["ru"])
+            ts2 = ts.subset(arg(), reorder_populations=case["rp"], remove_unreferenced=case["ru"])
             obs["ts"] = dump(ts2.dump_tables(), scale)
             obs["ts_prov"] = ts2.num_provenances - ts.num_provenances
         except Exception as e:
@@ -686,7 +692,7 @@ class Subset(Family):
         k = len(case["nodes"])
         return {"n_nodes": n, "list": ("dup" if len(set(case["nodes"])) != k else
                                        "all" if k == n else "empty" if k == 0 else "proper"),
-                "flags": "rp=%d,ru=%d" % (case["rp"], case["ru"]),
+                "flags": "rp=%d,ru=%d" % (case["rp"], case["ru"]), "form": case.get("form", "list"),
                 "out_edges": "err" if "error" in obs["ll"] else min(len(obs["ll"]["edges"]), 9)}
 
     def shrink(self, case):
@@ -710,6 +716,42 @@ class Subset(Family):
 def _i32(xs):
     import numpy as np
     return np.array(xs, dtype=np.int32)
+
+
+FORMS = ("list", "int32", "int64", "int16", "strided", "col2d", "reversed", "strided3")
+
+
+def as_form(values, form, junk_max):
+    """The id sequence `values` in a given argument form.  The view forms are int32 already (no
+    conversion copy anywhere on the way to C) and NOT contiguous; the memory between / around the
+    elements holds other valid ids, so a reader that ignores the strides silently gets a different
+    valid id list.  Expected behaviour for every form = behaviour for the plain list."""
+    import numpy as np
+    n = len(values)
+    junk = lambda k: (values[k % n] + 1 + k) % junk_max if n and junk_max > 0 else 0
+    if form == "list":
+        return list(values)
+    if form == "int32":
+        return np.array(values, dtype=np.int32)
+    if form == "int64":
+        return np.array(values, dtype=np.int64)
+    if form == "int16":
+        return np.array(values, dtype=np.int16)
+    if form == "strided":
+        buf = np.array([junk(k) for k in range(2 * n)], dtype=np.int32)
+        buf[::2] = values
+        return buf[::2]
+    if form == "strided3":
+        buf = np.array([junk(k) for k in range(3 * n + 1)], dtype=np.int32)
+        buf[1::3] = values
+        return buf[1::3]
+    if form == "col2d":
+        arr = np.array([[junk(3 * k), 0, junk(3 * k + 2)] for k in range(n)], dtype=np.int32).reshape(n, 3)
+        arr[:, 1] = values
+        return arr[:, 1]
+    if form == "reversed":
+        return np.array(list(values)[::-1], dtype=np.int32)[::-1]
+    raise ValueError(form)
 
 
 # ---------------------------------------------------------------------------------------
@@ -858,7 +900,7 @@ class Union(Family):
             yield {"desc": d, "mode": mode, "cut": rng.choice((times[1:] or times) * 2 + [times[0], times[-1] + 1]),
                    "seed": rng.randrange(1 << 30), "perturb": rng.choice(PERTURB[:1] * 6 + PERTURB[1:]),
                    "check": rng.random() < 0.7, "add_pops": rng.random() < 0.5,
-                   "rp": rng.random() < 0.5, "ru": rng.random() < 0.7}
+                   "rp": rng.random() < 0.5, "ru": rng.random() < 0.7, "form": rng.choice(FORMS)}
 
     def build(self, case, T):
         """self/other as plain lists, from the sorted input tables T (pure python)."""
@@ -887,14 +929,15 @@ class Union(Family):
         s.sort()
         o.sort()
         obs["S"], obs["O"] = dump(s, scale), dump(o, scale)
+        marg = lambda: as_form(mapping, case.get("form", "list"), int(s.nodes.num_rows))
         for api in ("tc", "ts"):
             try:
                 if api == "tc":
                     t = s.copy()
-                    t.union(o, mapping, check_shared_equality=case["check"], add_populations=case["add_pops"],
+                    t.union(o, marg(), check_shared_equality=case["check"], add_populations=case["add_pops"],
                             record_provenance=False)
                 else:
-                    t = s.tree_sequence().union(o.tree_sequence(), mapping, check_shared_equality=case["check"],
+                    t = s.tree_sequence().union(o.tree_sequence(), marg(), check_shared_equality=case["check"],
                                                 add_populations=case["add_pops"]).dump_tables()
                 obs[api] = dump(t, scale)
             except Exception as e:
@@ -953,6 +996,7 @@ class Union(Family):
 
     def describe(self, case, obs):
         return {"mode": case["mode"], "perturb": case["perturb"] if obs["changed"] else "none",
+                "form": case.get("form", "list"),
                 "flags": "check=%d,add_pops=%d" % (case["check"], case["add_pops"]),
                 "outcome": obs["tc"].get("code", "error") if "error" in obs["tc"] else "ok",
                 "new_nodes": min(sum(1 for m in obs["mapping"] if m == NULL), 6)}
